@@ -39,7 +39,8 @@ from ..traces import validate
 MiB = 1024 * 1024
 FINDING_OF = {"UncappedNonEmptyRepeat": "KF-C12-01", "ExtractAllIgnoresFilter": "KF-C12-02",
               "UnboundedVectorCount": "KF-C12-03", "UncappedSpaceCount": "KF-C12-04",
-              "DenseGridFromSparseCells": "KF-C12-05", "XrefPrevLoop": "KF-C12-07"}
+              "DenseGridFromSparseCells": "KF-C12-05", "XrefPrevLoop": "KF-C12-07",
+              "FromLineNestedQuantifier": "KF-C12-08", "PngScanRestartsInsideImage": "KF-C12-09"}
 # (KF-C12-06, 7z LZMA2 output limit, and KF-C12-02, 7z extractall ignoring the member filter, were repaired:
 #  proposed_fixes/c12-7z-lzma2-output-limit.diff, c12-7z-extract-only-kept.diff; a finding that is not open absorbs nothing)
 # deviation -> the invariant its sensitivity run must violate
@@ -52,13 +53,15 @@ SENSITIVITY = {"UncappedNonEmptyRepeat": "Inv_Bounded", "ExtractAllIgnoresFilter
                "GuardOnLinkSize": "Inv_Boundary", "FollowLinksUnchecked": "Inv_SkippedNeverDecompressed",
                "ReadByNameLast": "Inv_SkippedNeverDecompressed",
                "EmptyFileTakesSizeSlot": "Inv_SkippedNeverDecompressed", "ConfigureForgetsLimit": "Inv_ConfigMeaning",
-               "ImageScanNoProgress": "Inv_Bounded"}
+               "ImageScanNoProgress": "Inv_Bounded", "FromLineNestedQuantifier": "Inv_Bounded",
+               "PngScanRestartsInsideImage": "Inv_Bounded", "DibScanAdvancesByHeader": "Inv_Bounded",
+               "FromLineSecondStar": "Inv_Bounded"}
 INVS = ["Inv_NoLoadBeforeGuard", "Inv_Boundary", "Inv_SkippedNeverDecompressed", "Inv_MemberBoundary", "Inv_ConfigMeaning",
         "Inv_Bounded", "Inv_EntitiesNotExpanded", "Inv_Progress"]
 MARKERS = {"laughs": ["hahaha"], "quadratic": ["qqqqqqqqqq"], "parameter": ["zzzzzzzzzz"], "external": []}
 OTHER_OPTION_VALUES = {"buffer_size": 32768, "max_workers": 2, "enable_parallel": False, "enable_caching": False,
                        "enable_streaming": False}
-MAX_HOSTILE = 400 * 1024      # encoded size of any hostile file (most are < 8 KiB; OLE fixtures up to 192 KiB)
+MAX_HOSTILE = 512 * 1024      # encoded size of any hostile file (most are < 8 KiB; OLE fixtures and header floods up to 460 KiB)
 
 
 PART_A_DEVS = {"ExtractAllIgnoresFilter", "FlipCompare", "GuardAfterLoad", "DecompressBeforeCheck", "GuardOnLinkSize",
